@@ -33,7 +33,7 @@ def idle_phase(run):
         break
     # the MANUALLY WIRED multi-producer pattern of the module documentation: barrier from the sequencer, producer around a CLONE of it,
     # shut down by draining the clone (harness/ds family cloneprobe); the shut-down flag must be shared between clones
-    n_clone = 0; cprobes = [(0, 3), (1, 3), (1, 0), (0, 0)]
+    n_clone = 0; cprobes = [(0, 3), (1, 3), (1, 0), (0, 0), (0, 30), (1, 30)]      # 30 events: several laps of the 8-slot ring after the monitor barrier was dropped
     if not run.violations:
         for (block, n) in cprobes:
             ln = f"cloneprobe {block} {n}"
